@@ -238,6 +238,13 @@ def admits_gen(base, args, v, env):
     return True
   if not isinstance(v, c):
     return False
+  view = getattr(v, "__vk_view__", None)
+  if view is not None:
+    # harness-defined generic classes describe how an instance looks when seen as `base`:
+    # one list of witness values per type parameter of `base`
+    ws = view(base)
+    if ws is not None and len(ws) == len(args):
+      return all(admits(a, w, env) for a, wl in zip(args, ws) for w in wl)
   if isinstance(v, (str, bytes)) and c not in (str, bytes):
     # str as Sequence[str]/Iterable[str]: elements are str
     return all(admits(args[0], x, env) for x in v) if args else True
